@@ -40,7 +40,8 @@ pub struct HProg {
     ids: Vec<(u32, Option<u8>)>,
     sites: Vec<Site>,
     sentinels: [u64; 4],
-    vm_raw: bool,
+    /// VM kind selector: no-data, raw, metadata, fixed-metadata
+    vm: u8,
     /// frame size returned by the stack-usage calculator for every function (0 = shared frame)
     frame: u16,
 }
@@ -53,8 +54,8 @@ pub fn hprog(max_depth: u8) -> impl Strategy<Value = HProg> {
     let ids = prop::collection::vec((id_strategy(), prop_oneof![6 => prop::sample::select(vec![0u8, 1, 6]).prop_map(Some), 1 => Just(None)]), 1..4);
     let site = (any::<u8>(), [interesting_u64(), interesting_u64(), interesting_u64(), interesting_u64(), interesting_u64()], 0..=max_depth, any::<u32>(), prop::bool::weighted(0.1))
         .prop_map(|(id_sel, args, depth, junk, dead)| Site { id_sel, args, depth, junk, dead });
-    (ids, prop::collection::vec(site, 1..5), [interesting_u64(), interesting_u64(), interesting_u64(), interesting_u64()], any::<bool>(), prop::sample::select(vec![0u16, 0, 8, 16, 24, 40, 56]))
-        .prop_map(|(ids, sites, sentinels, vm_raw, frame)| HProg { ids, sites, sentinels, vm_raw, frame })
+    (ids, prop::collection::vec(site, 1..5), [interesting_u64(), interesting_u64(), interesting_u64(), interesting_u64()], 0u8..4, prop::sample::select(vec![0u16, 0, 8, 16, 24, 40, 56]))
+        .prop_map(|(ids, sites, sentinels, vm, frame)| HProg { ids, sites, sentinels, vm, frame })
 }
 
 fn lddw(out: &mut Vec<Insn>, dst: u8, v: u64) {
@@ -135,9 +136,18 @@ pub fn lower(p: &HProg) -> ExecCase {
             out.push(Insn::new(EXIT, 0, 0, 0, 0));
         }
     }
-    let mut case = ExecCase::new(if p.vm_raw { VmKind::Raw } else { VmKind::NoData }, encode_prog(&out));
-    if p.vm_raw {
+    let vm = match p.vm % 4 {
+        0 => VmKind::NoData,
+        1 => VmKind::Raw,
+        2 => VmKind::Mbuff { data_off: 8, end_off: 16 },
+        _ => VmKind::Fixed { data_off: 0x40, end_off: 0x50 },
+    };
+    let mut case = ExecCase::new(vm, encode_prog(&out));
+    if p.vm % 4 != 0 {
         case.pkt = vec![1, 2, 3, 4];
+    }
+    if p.vm % 4 == 2 {
+        case.mbuff = vec![0; 32];
     }
     case.helpers = ids.iter().filter_map(|(id, p)| p.map(|p| (*id, p))).collect();
     // nested chains deeper than one level need small frames: 512 / 256 only allows depth 1
